@@ -82,6 +82,9 @@ def _build():
         _add('num[grp,%s]' % ag, Q(items=[fa(1), agg(ag, 'a2', A2)], group=G1), ['id', 'id', 'id'])
     _add('num[MEDIAN]', Q(items=[agg('MEDIAN', 'a2', A2)]), ['id', 'id', 'id'])
     _add('num[SUM(int(a2)*2)]', Q(items=[agg('SUM', 'int(a2) * 2', lambda e: int(e.a(2)) * 2)]), ['id', 'id', 'id'], quick=True)
+    BIG = ('5', '9007199254740993')     # 2**53 + 1: not representable as a double
+    for ag in ('MIN', 'MAX', 'SUM', 'MEDIAN'):
+        _add('num[big,%s]' % ag, Q(items=[agg(ag, 'a2', A2)]), ['ip', 'ip', 'ip'], quick=(ag in ('MAX', 'SUM')), pdomain=BIG)
     _add('num[COUNT,ARRAY_AGG]', Q(items=[agg('COUNT', 'a2', A2), agg('ARRAY_AGG', 'a2', A2), agg('ANY_VALUE', 'a2', A2)]), ['id', 'id'])
     # F: non-aggregate columns must be constant within each group
     _add('const[grp]', Q(items=[fa(1), fa(2), Item('COUNT(*)', lambda e: 1, kind='agg', agg='COUNT')], group=G1), ['kk', 'kk', 'kk'], quick=True, krange=2)
@@ -153,7 +156,7 @@ return (tuple(st), exp)
 def obligations(tier, seed):
     obs = []
     quick = tier == 'quick'
-    names = QUICKSET if quick else [n for n in CASES if n not in HUNT]
+    names = (QUICKSET + qh.rotating([n for n in CASES if n not in HUNT and n not in QUICKSET], seed, 6)) if quick else [n for n in CASES if n not in HUNT]
     for name in names:
         shape, kw = SHAPE[name]
         obs.append(qh.query_obl('C03', name, CASES[name], shape, timeout=150 if quick else 900, **kw))
